@@ -1569,9 +1569,15 @@ func (e *Entry) dup() *Entry {
 		}
 	}
 
+	// merge appends the extras and extensions of a uses statement to those
+	// of each copied node: the copy needs slices of its own, or two copies
+	// append into the same spare capacity and see each other's values.
 	ne.Extra = make(map[string][]interface{})
 	for k, v := range e.Extra {
-		ne.Extra[k] = v
+		ne.Extra[k] = append(make([]interface{}, 0, len(v)), v...)
+	}
+	if e.Exts != nil {
+		ne.Exts = append(make([]*Statement, 0, len(e.Exts)), e.Exts...)
 	}
 
 	// Pointer and slice fields that augmentation and deviation modify in
